@@ -25,6 +25,9 @@ func ksPart(prop string) extraPart {
 			budget = envFloat("VERIF_KS_THOROUGH_S", 600)
 		}
 		workers := 16
+		if v := int(envFloat("VERIF_WORKERS", 0)); v >= 1 && v <= 64 {
+			workers = v
+		}
 		self, _ := os.Executable()
 		var mu sync.Mutex
 		var results []*KsResult
